@@ -345,20 +345,20 @@ Definition process_item (rd : reader) (it : item) (e : errs) : (reader * errs) *
       else ((mkReader (r_cell rd) (r_entries rd ++ [(key, en)]) (r_preamble rd), e1), Ok tt))
   end.
 
-(* Parser.parse_string(text): a LowLevelParser sharing the reader's macro object, each yielded
-   command processed before the next one is parsed *)
-Fixpoint feed (h : heap) (rd : reader) (file : list command) (e : errs) : (heap * reader * errs) * res unit :=
+(* Parser.parse_string(text): a LowLevelParser sharing the reader's macro object (so an @string is
+   visible to the following commands, and to later files of the same reader), each yielded
+   command processed before the next one is parsed.  [cell] is that macro object. *)
+Fixpoint feed (cell : dcell) (rd : reader) (file : list command) (e : errs) : (dcell * reader * errs) * res unit :=
   match file with
-  | [] => ((h, rd, e), Ok tt)
+  | [] => ((cell, rd, e), Ok tt)
   | c :: r =>
-    let '((cell1, e1), ri) := ll_command true (h_get h (r_cell rd)) c e in
-    let h1 := h_set h (r_cell rd) cell1 in
-    lift_res (h1, rd, e1) ri (fun oi =>
+    let '((cell1, e1), ri) := ll_command true cell c e in
+    lift_res (cell1, rd, e1) ri (fun oi =>
       match oi with
-      | None => feed h1 rd r e1
+      | None => feed cell1 rd r e1
       | Some it =>
         let '((rd1, e2), u) := process_item rd it e1 in
-        lift_res (h1, rd1, e2) u (fun _ => feed h1 rd1 r e2)
+        lift_res (cell1, rd1, e2) u (fun _ => feed cell1 rd1 r e2)
       end)
   end.
 
@@ -411,17 +411,20 @@ Record outcome := mkOut { o_val : res oval; o_stderr : list err; o_captured : op
 
 (* Parser.__init__ (lines 338-350) after BaseParser.__init__ (a fresh BibliographyData):
    self.macros = CaseInsensitiveDict(macros) -- a copy, in a new heap cell *)
+Definition new_macros (g_h : heap) (macros : option (list (str * str))) : dcell :=
+  ci_copy (match macros with None => c_items (h_get g_h 0) | Some l => l end).
 Definition new_reader (g_h : heap) (macros : option (list (str * str))) : heap * reader :=
-  let src := match macros with None => c_items (h_get g_h 0) | Some l => l end in
-  (g_h ++ [ci_copy src], mkReader (length g_h) [] []).
+  (g_h ++ [new_macros g_h macros], mkReader (length g_h) [] []).
 
-Definition snap (h : heap) (rd : reader) : snapshot := (r_entries rd, r_preamble rd, c_items (h_get h (r_cell rd))).
+Definition snap (cell : dcell) (rd : reader) : snapshot := (r_entries rd, r_preamble rd, c_items cell).
 
-Fixpoint feed_files (h : heap) (rd : reader) (files : list (list command)) (e : errs) : (heap * reader * errs) * res unit :=
+(* BaseParser.parse_files (input/__init__.py:50-53): the files one after the other into the same
+   reader (same macro object, same BibliographyData) *)
+Fixpoint feed_files (cell : dcell) (rd : reader) (files : list (list command)) (e : errs) : (dcell * reader * errs) * res unit :=
   match files with
-  | [] => ((h, rd, e), Ok tt)
-  | f :: r => let '((h1, rd1, e1), u) := feed h rd f e in
-              lift_res (h1, rd1, e1) u (fun _ => feed_files h1 rd1 r e1)
+  | [] => ((cell, rd, e), Ok tt)
+  | f :: r => let '((c1, rd1, e1), u) := feed cell rd f e in
+              lift_res (c1, rd1, e1) u (fun _ => feed_files c1 rd1 r e1)
   end.
 
 Fixpoint set_nth {X} (l : list X) (i : nat) (x : X) : list X :=
@@ -456,14 +459,14 @@ Definition exec (cap : nat) (fmt : fmt_fun) (g : G) (o : op) : G * res oval :=
     match nth_error (g_readers g) r with
     | None => (g, Crash)
     | Some rd =>
-      let '((h1, rd1, e1), u) := feed (g_heap g) rd file (g_err g) in
-      (mkG h1 (set_nth (g_readers g) r rd1) (g_ms g) (g_mf g) e1, map_res_val (fun _ => VData (snap h1 rd1)) u)
+      let '((c1, rd1, e1), u) := feed (h_get (g_heap g) (r_cell rd)) rd file (g_err g) in
+      (mkG (h_set (g_heap g) (r_cell rd) c1) (set_nth (g_readers g) r rd1) (g_ms g) (g_mf g) e1,
+       map_res_val (fun _ => VData (snap c1 rd1)) u)
     end
   | OParse macros files =>
-    let '(h1, rd) := new_reader (g_heap g) macros in
-    let '((h2, rd2, e2), u) := feed_files h1 rd files (g_err g) in
-    (* the reader is dropped afterwards: its cell is garbage, the heap keeps only what is reachable *)
-    (mkG (firstn (length (g_heap g)) h2) (g_readers g) (g_ms g) (g_mf g) e2, map_res_val (fun _ => VData (snap h2 rd2)) u)
+    (* the reader and its macro table are local to the call: nothing of them stays in G *)
+    let '((c2, rd2, e2), u) := feed_files (new_macros (g_heap g) macros) (mkReader 0 [] []) files (g_err g) in
+    (mkG (g_heap g) (g_readers g) (g_ms g) (g_mf g) e2, map_res_val (fun _ => VData (snap c2 rd2)) u)
   | OLowLevel src file =>
     let ci := match src with
               | None => Some 0
